@@ -566,6 +566,14 @@ func checkJoin(p *Program, r *Report, s goSite, key string) {
 		return
 	}
 	if len(sends) == 0 {
+		if why, isWG := waitGroupJoin(s); isWG {
+			if why == "" {
+				r.OK("R05.2", fmt.Sprintf("%s: joined through a sync.WaitGroup: Add before each go (or the loop bound before the loop), Done exactly once on every path of the goroutine, Wait before every return of the spawner", key))
+			} else {
+				r.Fail("R05.2", key+":waitgroup", p.Pos(s.g.Pos()), "the goroutine is joined through a sync.WaitGroup, but "+why)
+			}
+			return
+		}
 		r.Fail("R05.2", key+":no-send", p.Pos(s.g.Pos()), "goroutine never signals completion: the spawner cannot join it")
 		return
 	}
@@ -839,4 +847,118 @@ func counterMatchesGo(v ssa.Value, spawn *Loop, g *ssa.Go) string {
 	}
 	_ = strings.Contains
 	return ""
+}
+
+// waitGroupJoin: the counted join expressed with a sync.WaitGroup. isWG reports whether the goroutine calls Done on
+// a WaitGroup at all; why is empty when the idiom is complete: Done once on every path (deferred in the entry block,
+// or one call that dominates every return and is not in a loop), Add(1) on the same WaitGroup before the go statement
+// in the same iteration — or Add(bound of the spawn loop) before the loop —, and Wait on it dominating every return of
+// the spawner, outside the spawn loop.
+func waitGroupJoin(s goSite) (why string, isWG bool) {
+	isWGMethod := func(c *ssa.CallCommon, name string) bool {
+		f := c.StaticCallee()
+		return f != nil && f.Name() == name && fnPkg(f) != nil && fnPkg(f).Path() == "sync" && f.Signature.Recv() != nil && strings.Contains(f.Signature.Recv().Type().String(), "WaitGroup")
+	}
+	// the WaitGroup a value denotes, in the spawner's terms
+	inSpawner := func(v ssa.Value) ssa.Value {
+		v = stripConv(v)
+		if fv, ok := v.(*ssa.FreeVar); ok && s.mc != nil {
+			if j := freeVarIndex(s.cl, fv); j >= 0 && j < len(s.mc.Bindings) {
+				return stripConv(s.mc.Bindings[j])
+			}
+		}
+		if prm, ok := v.(*ssa.Parameter); ok && prm.Parent() == s.cl {
+			for i, fp := range s.cl.Params {
+				if fp == prm && i < len(s.g.Common().Args) {
+					return stripConv(s.g.Common().Args[i])
+				}
+			}
+		}
+		return v
+	}
+	var doneObj ssa.Value
+	nDone := 0
+	loops := findLoops(s.cl)
+	rets := returnsOf(s.cl)
+	bad := ""
+	eachInstr(s.cl, func(b *ssa.BasicBlock, _ int, ins ssa.Instruction) {
+		switch x := ins.(type) {
+		case *ssa.Defer:
+			if isWGMethod(x.Common(), "Done") {
+				nDone++
+				doneObj = inSpawner(x.Common().Args[0])
+				if b != s.cl.Blocks[0] {
+					bad = "Done is deferred on some paths only"
+				}
+			}
+		case *ssa.Call:
+			if isWGMethod(x.Common(), "Done") {
+				nDone++
+				doneObj = inSpawner(x.Common().Args[0])
+				if innermostLoop(loops, b) != nil {
+					bad = "Done is called inside a loop of the goroutine: the count no longer matches"
+				}
+				for _, ret := range rets {
+					if !instrDominates(x, ret) {
+						bad = "a path through the goroutine returns without calling Done: Wait blocks forever"
+					}
+				}
+			}
+		}
+	})
+	if nDone == 0 {
+		return "", false
+	}
+	if nDone > 1 {
+		return "Done is called at more than one place in the goroutine", true
+	}
+	if bad != "" {
+		return bad, true
+	}
+	sp := s.fn
+	sloops := findLoops(sp)
+	spawn := innermostLoop(sloops, s.g.Block())
+	added, waited := false, false
+	var waits []*ssa.Call
+	for _, c := range callsIn(sp) {
+		call, ok := c.(*ssa.Call)
+		if !ok {
+			continue
+		}
+		switch {
+		case isWGMethod(c.Common(), "Add") && stripConv(c.Common().Args[0]) == doneObj:
+			n := c.Common().Args[1]
+			if k, ok := constInt(n); ok && k == 1 && instrDominates(call, s.g) && (spawn == nil || spawn.Blocks[call.Block()]) {
+				added = true
+			}
+			if spawn != nil && !spawn.Blocks[call.Block()] && call.Block().Dominates(spawn.Header) {
+				if _, _, hi, ok := countingLoop(spawn); ok && origin1(n) == origin1(hi) {
+					added = true
+				}
+			}
+		case isWGMethod(c.Common(), "Wait") && stripConv(c.Common().Args[0]) == doneObj:
+			if spawn == nil || !spawn.Blocks[call.Block()] {
+				waits = append(waits, call)
+			}
+		}
+	}
+	if !added {
+		return "no Add(1) on the same WaitGroup precedes the go statement in its iteration (nor Add(loop bound) before the loop)", true
+	}
+	waited = len(waits) > 0
+	for _, ret := range returnsOf(sp) {
+		dom := false
+		for _, w := range waits {
+			if instrDominates(w, ret) {
+				dom = true
+			}
+		}
+		if !dom && canReach(s.g, ret) {
+			waited = false
+		}
+	}
+	if !waited {
+		return "a return of the spawner is reachable from the go statement without passing Wait on the same WaitGroup: Run would return while cells are still being computed", true
+	}
+	return "", true
 }
